@@ -266,7 +266,10 @@ PROPS["C16"] = {
 
 PROPS["C01"] = {
     "title": "Binary path arithmetic computes the point-set operation",
-    "gen_modules": ["PathArith"],
+    "gen_modules": ["PathArith", "Consts", "Basis", "Section", "Lines", "CurveLine", "FatLine", "Walk", "Normal", "Ray", "Clockwise"],
+    # the property's anchor files include ray.rs, graph_path/mod.rs and path_collision.rs: what is proved about them (C14: the ray-casting pipeline;
+    # C03: the structural invariant of the collision stage, the split algebra, the orientation test) are obligations of C01 as well
+    "props_modules": ["C01", "C14", "C03", "C03Split", "C03Orient"],
     "corr_n": (300, 4000),
     "search_n": (400, 8000),
     "extended_factor": 2,
